@@ -1,13 +1,27 @@
-import PsyVerif.Lemmas.ArrayLowerRed
+import PsyVerif.Lemmas.ArrayLowerNest
 /-! # C06 — array-syntax and intrinsic lowering preserve semantics
 
-Model: `Model/ArrayLower.lean` (namespace `C06`).  The model follows the code with the
-repairs of `fixes/C06-arrayassign-overlap-stride.patch` (refuse overlapping / differently
-strided sections) and `fixes/C06-reduction-result.patch`; the behaviour of the pinned
-`validate` is kept as `validateAA_pinned` with kernel-checked counterexamples.
+Model: `Model/ArrayLower.lean` (namespace `C06`).  The model follows the code with the repairs of
+`fixes/C06-arrayassign-overlap-stride-reduction-result.patch` (now in /repo); the behaviour of the pinned
+`validate` is kept as `validateAA_pinned` with kernel-checked counterexamples.  Stores are compared on
+every variable except the fresh names the transformation introduces (`AgreeOn (fun y => y ≠ idx …)`).
 
-Stores are compared on every variable except the fresh names the transformation
-introduces (`AgreeOn (fun y => y ≠ idx …)`). -/
+Proved here, for all stores / extents (incl. empty) / bounds / strides, and tied to the real code by the
+correspondence check of `harness/props/c06.py` (real accept/refuse + exported output = model):
+* ArrayAssignment2LoopsTrans, one range (`C06_arrayassign_sound`) and two ranges → loop nest
+  (`C06_arrayassign2_sound`); pinned-code counterexamples (overlap, stride);
+* Abs/Sign/Min/Max2CodeTrans (`C06_abs2code_sound`, `C06_sign2code_sound`, `C06_minmax2code_sound`);
+* Sum/Product/Minval/Maxval2LoopTrans with mask, context, both accumulator modes
+  (`C06_reduction2loop_sound`, `C06_reduction_accumulator_sound`, in-place counterexample); DIM refused;
+* DotProduct2CodeTrans, whole arrays and slices, under equal lower bounds (`C06_dot_sound_partial`,
+  `C06_dotslice_sound_partial`); Matmul2CodeTrans matrix-vector and matrix-matrix under `matvecAligned` /
+  `matmatAligned` (`C06_matvec_sound_partial`, `C06_matmul_sound_partial`); the negations are the known
+  findings, with kernel-checked counterexamples;
+* ArrayAccess2LoopTrans (`C06_arrayaccess2loop_sound`); Reference2ArrayRangeTrans on declared bounds
+  (`C06_ref2range_sound`).
+Evaluated with gfortran only (no Lean statement): sections with more than two ranges or on arrays of rank > 2,
+structure members, reductions over rank-2 sections (the loop nest is the one of `C06_arrayassign2_sound`
+around the accumulator statement), matrix operands with extra fixed dimensions, AllArrayAccess2LoopTrans. -/
 namespace C06
 open MiniF
 
@@ -212,6 +226,53 @@ example : (execMatvec ⟨0, 1, 2⟩ ⟨1, 0, 1, 2, 3⟩ ⟨2, 1, 2⟩ mvStore) (
 example : (execDotOrig 9 ⟨0, 1, 3⟩ ⟨1, 0, 2⟩ ⟨.sc 2, .var 9⟩ dotStore) (2, 0, 0) = 52 := by decide
 
 
+
+/-- **ArrayAssignment2LoopsTrans, two ranges**: an accepted rank-2 section assignment is executed by the
+generated loop nest (outer loop over the 2nd range) exactly as Fortran requires. -/
+theorem C06_arrayassign2_sound (idx2 idx1 : Nat) (a : AAIn2) (hv : validateAA2 a = none) (hne : idx2 ≠ idx1)
+    (h2 : idx2 ∉ a.lhs.arr :: (a.lhs.svars ++ a.rhs.allvars))
+    (h1 : idx1 ∉ a.lhs.arr :: (a.lhs.svars ++ a.rhs.allvars)) (σ : Store) :
+    AgreeOn (fun y => y ≠ idx2 ∧ y ≠ idx1) (exec (applyAA2 idx2 idx1 a) σ) (execAA2 a σ) :=
+  arrayassign2_sound idx2 idx1 a hv hne h2 h1 σ
+
+/-- **Matmul2CodeTrans, matrix-vector (partial)**: the loop nest computes `r = MATMUL(A, x)` for all extents
+when the declared lower bounds are aligned (`matvecAligned`); otherwise see the counterexample. -/
+theorem C06_matvec_sound_partial (i j : Nat) (r : Vec) (a : Mat) (x : Vec) (hal : matvecAligned r a x = true)
+    (hij : i ≠ j) (hr : r.arr ≠ a.arr ∧ r.arr ≠ x.arr)
+    (hi : i ≠ r.arr ∧ i ≠ a.arr ∧ i ≠ x.arr) (hj : j ≠ r.arr ∧ j ≠ a.arr ∧ j ≠ x.arr) (σ : Store) :
+    AgreeOn (fun y => y ≠ i ∧ y ≠ j) (exec (matvecCode i j r a x) σ) (execMatvec r a x σ) :=
+  matvec_sound_partial i j r a x hal hij hr hi hj σ
+
+/-- **Matmul2CodeTrans, matrix-matrix (partial)**: the three-deep loop nest computes `r = MATMUL(A, B)` for
+all extents under `matmatAligned`. -/
+theorem C06_matmul_sound_partial (i j ii : Nat) (r a b : Mat) (hal : matmatAligned r a b = true)
+    (hne : i ≠ j ∧ i ≠ ii ∧ j ≠ ii) (hr : r.arr ≠ a.arr ∧ r.arr ≠ b.arr)
+    (hi : i ≠ r.arr ∧ i ≠ a.arr ∧ i ≠ b.arr) (hj : j ≠ r.arr ∧ j ≠ a.arr ∧ j ≠ b.arr)
+    (hii : ii ≠ r.arr ∧ ii ≠ a.arr ∧ ii ≠ b.arr) (σ : Store) :
+    AgreeOn (fun y => y ≠ i ∧ y ≠ j ∧ y ≠ ii) (exec (matmatCode i j ii r a b) σ) (execMatmat r a b σ) :=
+  matmat_sound_partial i j ii r a b hal hne hr hi hj hii σ
+
+/-- **DotProduct2CodeTrans with sliced operands (partial)**: `a(:)`, `m(:,j)` … — sound when both operands
+start at the same lower bound. -/
+theorem C06_dotslice_sound_partial (res i : Nat) (s1 s2 : Sec) (s : Asg)
+    (h1 : s1.st = .lit 1) (h2 : s2.st = .lit 1) (hlo : s2.lo = s1.lo)
+    (hres : res ∉ s1.arr :: s2.arr :: (s1.svars ++ s2.svars)) (hri : res ≠ i)
+    (hi : i ∉ s1.arr :: s2.arr :: (s1.svars ++ s2.svars)) (his : i ∉ s.vars) (σ : Store) :
+    AgreeOn (fun y => y ≠ i) (exec (dot2codeS res i s1 s2 s) σ) (execDotOrigS res s1 s2 s σ) :=
+  dotS_sound_partial res i s1 s2 s h1 h2 hlo hres hri hi his σ
+
+/-- **ArrayAccess2LoopTrans**: the single-trip loop `do idx = e, e, 1; a(idx) = rhs[e := idx]` computes `a(e) = rhs`. -/
+theorem C06_arrayaccess2loop_sound (idx : Nat) (a : AccIn) (hidx : idx ∉ a.arr :: (vars a.index ++ vars a.rhs))
+    (hhole : a.hole ∉ arrs a.rhs) (σ : Store) :
+    AgreeOn (fun y => y ≠ idx) (exec (applyAcc idx a) σ) (exec (accOrig a) σ) :=
+  arrayaccess2loop_sound idx a hidx hhole σ
+
+/-- **Reference2ArrayRangeTrans**: `a(lb:ub:1)` with the declared bounds denotes the whole array `a`
+(same number of elements, same element order). -/
+theorem C06_ref2range_sound (v : Vec) (σ : Store) :
+    (ref2range v).count σ = v.count ∧ ∀ k : Int, (ref2range v).at σ k = v.at σ k :=
+  ref2range_sound v σ
+
 /-! ## Non-vacuity and sanity evaluations -/
 
 /-- `a(2:6) = a(2:6) + b(1:5) * s` with `m(i, 1:3) = m(j, 1:3)`-style same-range self reference: accepted -/
@@ -263,5 +324,26 @@ example : (match transRed 7 8 ⟨.sum, .sec ⟨0, .r1, .lit 1, .lit 3, .lit 1⟩
 example : transRed 7 8 ⟨.sum, .bin .mul (.sec ⟨0, .r1, .lit 1, .lit 9, .lit 2⟩) (.sec ⟨1, .r1, .lit 1, .lit 5, .lit 1⟩),
     none, false, .sc 3, 9, .var 9, 1000⟩ = .error .stride := rfl
 example : (⟨0, 1, 3⟩ : Vec).lb = (⟨1, 1, 3⟩ : Vec).lb := rfl
+
+
+/-- `m(1:2, 1:2) = m(1:2, 1:2) + q(0:1, 2:3) * x` (arrays 0, 1; x = var 2) -/
+def aa2Witness : AAIn2 :=
+  { lhs := ⟨0, .lit 1, .lit 2, .lit 1, .lit 1, .lit 2, .lit 1⟩,
+    rhs := .bin .add (.sec ⟨0, .lit 1, .lit 2, .lit 1, .lit 1, .lit 2, .lit 1⟩)
+      (.bin .mul (.sec ⟨1, .lit 0, .lit 1, .lit 1, .lit 2, .lit 3, .lit 1⟩) (.sc (.var 2))) }
+
+example : validateAA2 aa2Witness = none ∧ 7 ∉ aa2Witness.lhs.arr :: (aa2Witness.lhs.svars ++ aa2Witness.rhs.allvars) := by
+  decide
+example : (exec (applyAA2 7 8 aa2Witness) (storeOf [((0, 2, 2), 5), ((1, 1, 3), 4), ((2, 0, 0), 3)])) (0, 2, 2) = 17 := by
+  decide
+example : (execAA2 aa2Witness (storeOf [((0, 2, 2), 5), ((1, 1, 3), 4), ((2, 0, 0), 3)])) (0, 2, 2) = 17 := by decide
+-- a shifted self reference is refused: `m(1:2,1:2) = m(1:2,2:3)`
+example : validateAA2 ⟨aa2Witness.lhs, .sec ⟨0, .lit 1, .lit 2, .lit 1, .lit 2, .lit 3, .lit 1⟩⟩ = some .overlap := by decide
+example : matvecAligned ⟨0, 1, 2⟩ ⟨1, 1, 2, 1, 2⟩ ⟨2, 1, 2⟩ = true ∧ matmatAligned ⟨0, 1, 2, 1, 2⟩ ⟨1, 1, 2, 0, 1⟩ ⟨2, 0, 1, 1, 2⟩ = true := by
+  decide
+example : (exec (matmatCode 7 8 9 ⟨0, 1, 2, 1, 2⟩ ⟨1, 1, 2, 0, 1⟩ ⟨2, 0, 1, 1, 2⟩)
+    (storeOf [((1, 2, 0), 2), ((1, 2, 1), 3), ((2, 0, 2), 5), ((2, 1, 2), 7)])) (0, 2, 2) = 31 := by decide
+example : (exec (applyAcc 7 ⟨0, .var 3, .bin .add (.idx1 1 (.var 9)) (.var 2), 9⟩)
+    (storeOf [((3, 0, 0), 4), ((1, 4, 0), 10), ((2, 0, 0), 1)])) (0, 4, 0) = 11 := by decide
 
 end C06
